@@ -395,6 +395,8 @@ class Ctx(object):
         raise PathAbort("bound-exceeded:" + what)
 
     def assume_expr(self, e):
+        """Add a hypothesis.  The path condition must stay satisfiable (otherwise every later
+        obligation would hold vacuously), so feasibility is checked right away."""
         e = z3.simplify(e)
         if z3.is_true(e):
             return
@@ -403,6 +405,16 @@ class Ctx(object):
         self.pc.append(e)
         self.model = None
         self.model_at = -1
+        if self._in_summary:
+            return
+        if len(self.decisions) < len(self.prefix):
+            return      # replaying a prefix that was feasible when it was first explored
+        self.stats.feas_queries += 1
+        r, m = self._check()
+        if r == "unsat":
+            raise PathAbort("assume-infeasible")
+        if r == "sat":
+            self.model, self.model_at = m, len(self.pc)
 
     def assume_checked(self, e):
         """assume + make sure the path is still feasible (abort otherwise)."""
